@@ -38,21 +38,21 @@ type leakRes struct {
 }
 
 type leakArgs struct {
-	Files          map[string]json.RawMessage `json:"files"`        // relative file name → tagged tree
-	ConfigFiles    []string                   `json:"config_files"` // compose files given to the loader, in order
-	Env            map[string]string          `json:"env"`
-	Cores          map[string]string          `json:"cores"` // variable → alphanumeric core of its value
-	RawFiles       map[string]string          `json:"raw_files,omitempty"` // files written as they are (env files of an include)
-	IncEnv         map[string]string          `json:"inc_env,omitempty"`   // what the include's env file (env_file: or .env of its project directory) defines
-	IncCores       map[string]string          `json:"inc_cores,omitempty"` // variable → core of its value in the include's env file
-	PName          string                     `json:"pname"`
-	Secrets        []leakRes                  `json:"secrets"`
-	Configs        []leakRes                  `json:"configs"`
-	SkipValidation bool                       `json:"skip_validation,omitempty"`
-	SkipConsistency bool                      `json:"skip_consistency,omitempty"`
-	Malformed      bool                       `json:"malformed,omitempty"`
-	Opts           *loadOpts                  `json:"opts,omitempty"` // round 6: loader options that change what later stages see
-	Pre            *preSpec                   `json:"pre,omitempty"`  // round 7: the compose files are handed over already parsed (types.ConfigFile.Config), with shared Go values
+	Files           map[string]json.RawMessage `json:"files"`        // relative file name → tagged tree
+	ConfigFiles     []string                   `json:"config_files"` // compose files given to the loader, in order
+	Env             map[string]string          `json:"env"`
+	Cores           map[string]string          `json:"cores"`               // variable → alphanumeric core of its value
+	RawFiles        map[string]string          `json:"raw_files,omitempty"` // files written as they are (env files of an include)
+	IncEnv          map[string]string          `json:"inc_env,omitempty"`   // what the include's env file (env_file: or .env of its project directory) defines
+	IncCores        map[string]string          `json:"inc_cores,omitempty"` // variable → core of its value in the include's env file
+	PName           string                     `json:"pname"`
+	Secrets         []leakRes                  `json:"secrets"`
+	Configs         []leakRes                  `json:"configs"`
+	SkipValidation  bool                       `json:"skip_validation,omitempty"`
+	SkipConsistency bool                       `json:"skip_consistency,omitempty"`
+	Malformed       bool                       `json:"malformed,omitempty"`
+	Opts            *loadOpts                  `json:"opts,omitempty"` // round 6: loader options that change what later stages see
+	Pre             *preSpec                   `json:"pre,omitempty"`  // round 7: the compose files are handed over already parsed (types.ConfigFile.Config), with shared Go values
 }
 
 type leakFail struct {
@@ -341,7 +341,7 @@ func realLeak(raw json.RawMessage) any {
 			}
 		}
 		if what, ok := callerUnchanged(); !ok && !a.Malformed {
-			return map[string]any{"ok": map[string]any{"fails": []leakFail{{"mutated:caller-model", what}}}}
+			return map[string]any{"ok": map[string]any{"fails": inPlaceKeys(&a, []leakFail{{"mutated:caller-model", what}})}}
 		}
 		return map[string]any{"err": "rejected", "class": classifyLoadErr(err.Error()), "text": core.ScrubErr(err, root)}
 	}
@@ -370,7 +370,7 @@ func realLeak(raw json.RawMessage) any {
 		return "", false, ""
 	}
 	// what was generated, by variable
-	kindOfVar := map[string]string{} // var → secret | config
+	kindOfVar := map[string]string{}  // var → secret | config
 	nSecretsOfVar := map[string]int{} // scope:var → number of secrets carrying that value
 	for _, s := range a.Secrets {
 		if s.Kind == "environment" {
@@ -412,11 +412,6 @@ func realLeak(raw json.RawMessage) any {
 			return k
 		}
 		return "unused"
-	}
-
-	// 0. (round 7) the caller's parsed model is the caller's: the load writes nothing into it (no carrier key, no name, no content)
-	if what, ok := callerUnchanged(); !ok {
-		add("mutated:caller-model", "%s", what)
 	}
 
 	// 1. the value is available on the loaded project
@@ -584,6 +579,12 @@ func realLeak(raw json.RawMessage) any {
 		if after := dumpProject(p); after != before {
 			add("mutated:derive", "deriving / rendering derived projects modified the project")
 		}
+	}
+	// 3. (round 7) the caller's parsed model is the caller's: neither the load nor anything after it writes into it
+	// (no carrier key, no name, no content).  Checked last: a leak it causes is reported under the leak's own key.
+	if what, ok := callerUnchanged(); !ok {
+		add("mutated:caller-model", "%s", what)
+		fails = inPlaceKeys(&a, fails)
 	}
 	if fails == nil {
 		fails = []leakFail{}
@@ -810,4 +811,35 @@ func dumpTree(d map[string]any) string {
 		return "unencodable: " + err.Error()
 	}
 	return string(b)
+}
+
+// Recorded finding (round 7): with SkipInterpolation nothing copies a model handed over already parsed — the loader
+// works in place on the caller's ConfigFile.Config.  Only for that combination (pre-parsed ∧ SkipInterpolation ∧ the
+// caller's model was in fact written to) the failures get the finding's two stable keys: a value found in a rendering,
+// and the mutation itself.  With interpolation on (seed C20-9) the keys stay the unlisted `leak:…` / `mutated:caller-model`.
+const (
+	keyInPlaceLeak    = "leak:preparsed-in-place:skip-interpolation"
+	keyInPlaceMutated = "input-mutated:preparsed:skip-interpolation"
+)
+
+func inPlaceKeys(a *leakArgs, fails []leakFail) []leakFail {
+	if a.Pre == nil || a.Opts == nil || !a.Opts.SkipInterpolation {
+		return fails
+	}
+	var out []leakFail
+	seen := map[string]bool{}
+	for _, f := range fails {
+		switch {
+		case f.Key == "mutated:caller-model":
+			f.Key = keyInPlaceMutated
+		case strings.HasPrefix(f.Key, "leak:"):
+			f.What = f.Key + ": " + f.What
+			f.Key = keyInPlaceLeak
+		}
+		if !seen[f.Key] {
+			seen[f.Key] = true
+			out = append(out, f)
+		}
+	}
+	return out
 }
